@@ -262,6 +262,10 @@ FINDINGS = _build() + [
          pattern=dict(check="wellformed", parser="function_live", source="live", clause="typ_not_str", entry="param", has_default=False),
          what="[R-typ-none] the same through the inspect path: function.parse of a live function returns 'typ': None for a parameter that is neither annotated nor given a default",
          site="cdd/function/parse.py:function (FunctionType branch) / cdd/shared/parse/utils/parser_utils.py:_inspect", example="def f(a, b, c): ... imported from a module, cdd.function.parse.function(f)"),
+    dict(id="C14-live-class-merged-static-untyped-parameter-typ-none", property="C14",
+         pattern=dict(check="wellformed", parser="class_live", source="live", clause="typ_not_str", entry="param", has_default=False),
+         what="[R-typ-none] a live class merged with a receiver-less inner function: the undocumented, unannotated first parameter comes back with 'typ': None",
+         site="cdd/class_/parse.py:_merge_inner_function / cdd/function/parse.py", example="class Cfg: a: int = 1; @staticmethod def create(c, d=2) ...; class_(Cfg, merge_inner_function='create')"),
     dict(id="C14-live-function-undocumented-varargs-dropped", property="C14",
          pattern=dict(check="wellformed", parser="function_live", source="live", clause="signature_param_count", documented=False, param_kind={"in": ["vararg", "kwarg"]}, times=0),
          what="[R-undocumented-varargs-dropped] the same through the inspect path: *args / **kwargs of a live function's signature are missing from the result unless documented",
